@@ -905,7 +905,19 @@ Definition plan_monitor (c : ccase) : option string :=
                   | Some v => Some (sapp "C08:" (sapp (path_class b) (sapp ":" (sapp v (unlike_model c)))))
                   | None => None
                   end
-      | None => None     (* reported as a mismatch *)
+      | None =>
+          (* the model refuses to build (e.g. "target leader is not allowed") but the implementation produced a plan:
+             judged against what the recorded calls asked for *)
+          match new_builder i with
+          | Some b0 => match api_ops b0 (i_ops i) with
+                       | Some b1 => match plan_check (goal_of b1) (i_region i) ss with
+                                    | Some v => Some (sapp "C08:refused-by-model:" (sapp v (unlike_model c)))
+                                    | None => None
+                                    end
+                       | None => None
+                       end
+          | None => None
+          end
       end
   | CLeave _ r (Built ss _ _) _ =>
       match plan_check (leave_goal r) r ss with
